@@ -235,7 +235,13 @@ pub fn layout(spec: &mut ElfSpec, r: &mut Rng) -> Built {
 }
 
 pub fn notes_bytes(r: &mut Rng, little: bool, lay: usize, cnt: u64) -> Vec<u8> {
+    notes_bytes_cuts(r, little, lay, cnt).0
+}
+
+/// ... and the offsets at which each note ends
+pub fn notes_bytes_cuts(r: &mut Rng, little: bool, lay: usize, cnt: u64) -> (Vec<u8>, Vec<usize>) {
     let mut buf = Vec::new();
+    let mut cuts = Vec::new();
     for _ in 0..cnt {
         let (name, ntype, desc): (Vec<u8>, u64, Vec<u8>) = match r.below(5) {
             0 => (b"GNU\0".to_vec(), 1, r.bytes(16)),
@@ -249,8 +255,9 @@ pub fn notes_bytes(r: &mut Rng, little: bool, lay: usize, cnt: u64) -> Vec<u8> {
         while lay > 0 && buf.len() % lay != 0 { buf.push(0); }
         buf.extend(&desc);
         while lay > 0 && buf.len() % lay != 0 { buf.push(0); }
+        cuts.push(buf.len());
     }
-    buf
+    (buf, cuts)
 }
 
 fn sec(name: &[u8], ty: u32, data: Vec<u8>) -> Sec {
@@ -335,10 +342,13 @@ pub fn random_elf(r: &mut Rng, rich: bool) -> (ElfSpec, Built) {
     }
     // notes
     let mut note_idx = None;
+    let mut note_cuts: Vec<usize> = Vec::new();
     if want(r) {
         let al = *r.pick(&[4u64, 8, 4, 1, 3, 12, 2, 16, 6]);
         let cnt = r.below(4);
-        let mut s = sec(b".note.x", SHT_NOTE, notes_bytes(r, little, al as usize, cnt)); s.align = al;
+        let (nb, cuts) = notes_bytes_cuts(r, little, al as usize, cnt);
+        note_cuts = cuts;
+        let mut s = sec(b".note.x", SHT_NOTE, nb); s.align = al;
         note_idx = Some(sp.secs.len());
         sp.secs.push(s);
     }
@@ -399,7 +409,14 @@ pub fn random_elf(r: &mut Rng, rich: bool) -> (ElfSpec, Built) {
             sp.secs.push(s);
             sp.segs.push(Seg { ty: 2, flags: 6, sec: Some(sp.secs.len() - 1), align: 8, ..Default::default() });
         }
-        if let Some(ni) = note_idx { sp.segs.push(Seg { ty: 4, flags: 4, sec: Some(ni), align: sp.secs[ni].align, ..Default::default() }); }
+        if let Some(ni) = note_idx {
+            // PT_NOTE usually designates the note section; sometimes only its leading notes (same start, shorter)
+            let mut g = Seg { ty: 4, flags: 4, sec: Some(ni), align: sp.secs[ni].align, ..Default::default() };
+            if note_cuts.len() >= 2 && r.chance(1, 2) {
+                g.sec = None; g.off = u64::MAX; g.filesz = note_cuts[r.below(note_cuts.len() as u64 - 1) as usize] as u64; g.memsz = ni as u64;
+            }
+            sp.segs.push(g);
+        }
         for _ in 0..r.below(3) {
             let si = r.range(1, sp.secs.len() as u64 - 1) as usize;
             sp.segs.push(Seg { ty: *r.pick(&[1u32, 1, 6, 7, 0x6474e551]), flags: r.below(8) as u32, sec: Some(si), memsz: r.below(3) * 16, align: 0x1000, vaddr: r.edge64(), ..Default::default() });
@@ -671,12 +688,18 @@ pub fn stream_family(r: &mut Rng, n: u64, x: &mut Exec, sink: &mut Sink, mode: &
                     let flen = b.bytes.len() as u64;
                     for h in ents.iter() {
                         let ty = rd_w(&h["sh_type"]) as u32;
-                        let acc = match ty { SHT_SYMTAB => "symbol_table", SHT_DYNSYM => "dynamic_symbol_table", SHT_GNU_VERSYM => "symbol_version_table", _ => continue };
+                        let acc = match ty { SHT_SYMTAB => "symbol_table", SHT_DYNSYM => "dynamic_symbol_table", SHT_GNU_VERSYM => "symbol_version_table",
+                            SHT_NOTE => "section_data_as_notes", SHT_REL => "section_data_as_rels", SHT_RELA => "section_data_as_relas",
+                            SHT_STRTAB => "section_data_as_strtab", SHT_DYNAMIC => "dynamic", _ => continue };
                         if !r.chance(2, 3) { continue; }
                         let hsz = rd_w(&h["sh_size"]).min(flen);
+                        let hoff = rd_w(&h["sh_offset"]).min(flen);
                         let mut prelude: Vec<Value> = vec![json!({"op":"sq","name":"section_data","shdr":h.clone()})];
                         for (off, size) in [(0u64, flen), (1, flen - 1), (0, flen - 1), (flen / 2, flen - flen / 2), (0, flen / 2),
-                                            (0, flen - hsz), (0, (flen - hsz).saturating_sub(1)), (hsz.min(flen), flen - hsz.min(flen))] {
+                                            (0, flen - hsz), (0, (flen - hsz).saturating_sub(1)), (hsz.min(flen), flen - hsz.min(flen)),
+                                            // ranges sharing the section's own start (longer, shorter) or its end
+                                            (hoff, flen - hoff), (hoff, hsz / 2), (hoff, (hsz + 1).min(flen - hoff)),
+                                            (hoff.saturating_sub(1), (hsz + 1).min(flen - hoff.saturating_sub(1))), (hoff + hsz / 2, hsz - hsz / 2)] {
                             if r.chance(1, 2) { continue; }
                             let mut hh = h.clone(); hh["sh_type"] = w4(1); hh["sh_flags"] = w8(0); hh["sh_offset"] = w8(off); hh["sh_size"] = w8(size);
                             prelude.push(json!({"op":"sq","name":"section_data","shdr":hh}));
@@ -685,6 +708,7 @@ pub fn stream_family(r: &mut Rng, n: u64, x: &mut Exec, sink: &mut Sink, mode: &
                         for o in &prelude { sink.run(x, o); }
                         let mut q = json!({"op":"sq","name":acc});
                         if acc == "symbol_version_table" { q["qs"] = json!([["req", w8(1)], ["def", w8(1)]]); }
+                        if acc.starts_with("section_data_as") { q["shdr"] = h.clone(); }
                         sink.run(x, &q); sink.run(x, &q);
                     }
                 }
